@@ -79,7 +79,7 @@ def tlc_cmd(module, cfg, metadir, workers, heap="4g", extra=None, deque=False):
 RE_STATES = re.compile(r"(\d+) states generated, (\d+) distinct states found")
 
 
-def run_mc(module, cfg, workers=8, timeout=900, expect_violation=False, heap="12g", overrides=None, tag=None):
+def run_mc(module, cfg, workers=8, timeout=900, expect_violation=False, heap="12g", overrides=None, tag=None, simulate=None):
     """Exhaustive model checking of a config. Returns dict(states, transitions, ok, violated, wall, out)."""
     tag = tag or os.path.basename(cfg).replace(".cfg", "")
     md = workdir(f"mc_{tag}_{os.getpid()}")
@@ -95,7 +95,11 @@ def run_mc(module, cfg, workers=8, timeout=900, expect_violation=False, heap="12
     t0 = time.time()
     timed_out = False
     try:
-        rc, out = sh(tlc_cmd(module, cfg_path, md + "/states", workers, heap=heap, extra=["-coverage", "1"]), timeout=timeout, cwd=SPEC)
+        extra = ["-coverage", "1"]
+        if simulate:
+            # random walks through a state space too large to enumerate (not exhaustive)
+            extra = ["-simulate", f"num={simulate['num']}", "-depth", str(simulate.get("depth", 100))]
+        rc, out = sh(tlc_cmd(module, cfg_path, md + "/states", workers, heap=heap, extra=extra), timeout=timeout, cwd=SPEC)
     except subprocess.TimeoutExpired as e:
         # a bounded exploration: report what was covered, it is not exhaustive
         out = e.output if isinstance(e.output, str) else (e.output or b"").decode(errors="replace")
@@ -105,12 +109,18 @@ def run_mc(module, cfg, workers=8, timeout=900, expect_violation=False, heap="12
     m = RE_STATES.findall(out)
     states = int(m[-1][1]) if m else 0
     trans = int(m[-1][0]) if m else 0
+    sim = re.findall(r"Progress: (\d+) states checked, (\d+) traces generated", out)
+    if simulate and sim:
+        states, trans = int(sim[-1][0]), int(sim[-1][0])
     violated = None
     mm = re.search(r"Error: Invariant (\w+) is violated", out) or re.search(r"Error: Action property (\w+) is violated", out) \
         or re.search(r"Error: Temporal properties were violated", out)
     if mm:
         violated = mm.group(1) if mm.groups() else "temporal"
     finished = "Model checking completed. No error has been found." in out
+    if simulate and not violated and sim:
+        return dict(cfg=tag, states=states, transitions=trans, ok=True, complete=False, violated=None, wall=round(wall, 1), cex_actions=[],
+                    simulation=dict(traces=int(sim[-1][1]), depth=simulate.get("depth", 100)), out=out[-1500:])
     if timed_out and not violated:
         pm = re.findall(r"Progress\(\d+\) at [^:]+:[^:]+:[^:]+: ([\d,]+) states generated.*?, ([\d,]+) distinct states found", out)
         states = int(pm[-1][1].replace(",", "")) if pm else 0
